@@ -430,7 +430,20 @@ def check_log_collect(ck, P, rid):
             init = _last_assign_before(f, X.strip(core.children[0]), lp)
             defs_between = [d for d in _defs_of(f, X.strip(core.children[0]).did) if not d.is_inside(lp)]
             prev_loop_exit_at_kept = any(d.k == "UnaryOperator" and d.op == "--" for d in defs_between)
-            if prev_loop_exit_at_kept or (init is not None and X.show(init) == kept):
+            # a definition of the index that is neither its initialisation nor the re-base loop's own decrement moves the start
+            def _in_loop(d):
+                q = d.parent
+                while q is not None:
+                    if q.k in ("WhileStmt", "ForStmt", "DoStmt"):
+                        return True
+                    q = q.parent
+                return False
+            stray = [d for d in defs_between if not _in_loop(d) and d.k != "VarDecl" and d.line > 0 and d.line <= lp.line and not (d.k == "BinaryOperator" and d.op == "=" and d.line < min([x.line for x in defs_between if _in_loop(x)] or [10 ** 9]))]
+            if stray and any((d.k == "UnaryOperator" and d.op == "++") or (d.k == "CompoundAssignOperator" and d.op == "+=") for d in stray):
+                ck.violated(rid, inst + ":free-range", stray[0].where, "the free loop starts above the kept index (`%s` after the re-base loop): the kept checkpoint itself is freed while the log still lists it" % X.show(stray[0]), cfg)
+            elif stray:
+                ck.inconclusive(rid, inst + ":free-range", stray[0].where, "the index is changed between the re-base loop and the free loop", cfg)
+            elif prev_loop_exit_at_kept or (init is not None and X.show(init) == kept):
                 ck.holds(rid, inst + ":free-range", fr.where, "while(%s--) free(logs[%s]) entered with %s == %s: only checkpoints older than the kept one are freed" % (X.show(idxn), X.show(idxn), X.show(idxn), kept), cfg)
             else:
                 ck.inconclusive(rid, inst + ":free-range", fr.where, "start of the free loop not recognised", cfg)
@@ -469,6 +482,9 @@ def check_log_restore(ck, P, rid):
         ck.inconclusive(rid, inst + ":chosen<=target", ck_load[0].where, "the scan can also stop on a bound check of its index; whether the entry reached there is not after the target is a data invariant", cfg)
     elif any(not r <= {"<", "="} for r in rels):
         ck.violated(rid, inst + ":chosen<=target", ck_load[0].where, "a checkpoint taken AFTER the rollback target can be restored: undone events' effects survive the rollback", cfg)
+    elif all(r <= {"<"} for r in rels):
+        ck.violated(rid, inst + ":chosen<=target", ck_load[0].where, "the scan passes over a checkpoint taken exactly at the target position: a rollback to the position of the oldest kept "
+                    "checkpoint (position 0 after every fossil collection) finds no entry to stop at and runs off the front of the log", cfg)
     else:
         ck.holds(rid, inst + ":chosen<=target", ck_load[0].where, "scan stops only at ref_i <= %s, starting from the newest entry" % tgt, cfg)
     # scan starts from the newest entry and walks down by one
